@@ -545,7 +545,7 @@ def run(ctx):
             if len(samples) < 5 and sum(1 for c in H if c[0] == 'fail') >= 2:
                 samples.append(dict(world=c07.WORLDS[wk][0].__name__, history=c07.jsonable_history(H)))
     todo = [d for d in defs if d is not None]
-    res = ctx.eval_tallies(cs.HEADER, todo, per_file=350)
+    res = cs.eval_with_retry(ctx, todo, per_file=350)
     agree = ncorr = 0
     kmap = [k for k, d in enumerate(defs) if d is not None]
     for k, x in zip(kmap, res):
